@@ -60,6 +60,12 @@ type Plan struct {
 	// SyncZero: the signer returns no signature for SyncZeroSig's sync committee messages.
 	SyncZero          bool   `json:"sync_zero,omitempty"`
 	SyncZeroSig       int    `json:"sync_zero_sig,omitempty"`
+	// SyncZeroOnce: ... only for the messages signed during slot SyncZeroSlot (one failing request, not a dead account)
+	SyncZeroOnce bool   `json:"sync_zero_once,omitempty"`
+	SyncZeroSlot uint64 `json:"sync_zero_slot,omitempty"`
+	// Exited: validators of ours that have exited (no longer active: not among the validating accounts) but are
+	// still eligible for sync committee duty (among the sync committee accounts)
+	Exited []int `json:"exited,omitempty"`
 	// ContribZero: the signer returns no signature for ContribZeroSig's contribution-and-proof objects
 	// (the third signing step of an aggregating member, after message and selection proof succeeded).
 	ContribZero    bool `json:"contrib_zero,omitempty"`
